@@ -16,8 +16,8 @@ Print Assumptions C08_record_roundtrip.
     oversize records included) and threshold, read back byte for byte through GetVersionedEntry
     and through Get/GetCF/Txn.Get, after any history of write requests (single entries or
     transaction batches), memtable rotations and flushes.  [ops_okb] is the side condition of the
-    LSM read theorem (C01/C02: ghost numbers increase, a write's version is not below an earlier
-    version of its key) plus "no offset, length or file id reaches 2^32". *)
+    LSM read theorem (C01/C02: positive versions, increasing ghost numbers) plus "no offset,
+    length or file id reaches 2^32". *)
 Theorem C08_roundtrip : forall c m ops now,
   c_nb c <= two32 -> ops_okb c (init_db c m) nil ops = true ->
   let d := vrun c (init_db c m) ops in
@@ -26,21 +26,43 @@ Proof. exact roundtrip. Qed.
 Print Assumptions C08_roundtrip.
 
 (** GC, call-atomic.  The full statement "rewrite never changes a read" is refuted on the
-    faithful model: two transactions write a, the memtable is sealed, GC rewrites the file of the
-    first version -> the old version answers (finding C08-F4gc). *)
+    faithful model: a transactional write whose expiry has passed, GC drops its record and removes
+    the file, the LSM entry still points into it -> reads fail in the value log instead of
+    reporting the tombstone / not-found (finding C08-F31). *)
 Theorem C08_gc_preserves_reads_refuted :
   exists c ops now bk fid nseq k v,
     ops_okb c (init_db c 1) [] ops = true /\
     let d := vrun c (init_db c 1) ops in
-    gobs (db_get (fst (rewrite c now d bk fid nseq)) k v) <> gobs (db_get d k v).
+    let d' := fst (rewrite c now d bk fid nseq) in
+    gobs (db_get d' k v) <> gobs (db_get d k v) /\ gobs (db_get_live now d' k v) <> gobs (db_get_live now d k v).
 Proof. exact gc_preserves_reads_refuted. Qed.
 Print Assumptions C08_gc_preserves_reads_refuted.
 
-(** What holds: (1) the write-back changes no read when every moved entry is the newest version of
-    its key ([chain_ok], the excluded class of the refutation; always true for plain-API keys) and
-    carries what is visible at its internal key ([dups]); the file stays in this pass.
+(** What holds, for every state reached by an admissible history (write requests, memtable
+    rotations, flushes) and any file: one GC pass changes no read through any point-read API when
+    (a) an internal key determines what was written under it ([ikey_funb]: transactional keys,
+    whose versions are unique; plain-API keys that were never overwritten) and (b) no
+    deleted/expired write holds an out-of-line value (the class of the refutation, C08-F31).
+    The other side conditions say that GC's ghost numbers are fresh and nothing reaches 2^32.
+    The recency condition of the earlier version of this theorem is gone with the repair of
+    LSM.Get (/repo 2f52ea0): GC may re-insert old versions, they no longer shadow newer ones. *)
+Theorem C08_gc_preserves_reads_partial : forall c m ops now bk fid nseq,
+  c_nb c <= two32 -> ops_okb c (init_db c m) [] ops = true ->
+  let ws := vwrites ops in
+  let d := vrun c (init_db c m) ops in
+  ikey_funb ws = true ->
+  forallb (fun w => (0 <? r_ver w) && (r_seq w <? nseq) && negb (is_big c w && dead now w)) ws = true ->
+  vsmallb (d_vl (fst (rewrite c now d bk fid nseq))) = true ->
+  forall t k v, let d' := fst (rewrite c now d bk fid nseq) in
+    gobs (db_get d' k v) = gobs (db_get d k v) /\ gobs (db_get_live t d' k v) = gobs (db_get_live t d k v).
+Proof. exact gc_preserves_unique_run. Qed.
+Print Assumptions C08_gc_preserves_reads_partial.
+
+(** The two halves in general form (any history, including overwritten plain-API keys):
+    (1) the write-back changes no read when every moved entry carries what is visible at its
+    internal key ([dups]) with fresh ghost numbers ([chain_ok]); the file stays in this pass.
     (2) the removal of a file from which nothing had to be moved changes no read, unless a
-    deleted/expired entry still holds a value pointer (finding C08-F31). *)
+    deleted/expired entry still holds a value pointer. *)
 Theorem C08_gc_preserves_reads_partial_writeback : forall c now d ws bk fid nseq wb,
   Inv c d ws -> gc_decide now d bk fid nseq = Some wb -> wb <> [] ->
   chain_ok ws wb -> Forall rec_ok wb -> dups ws wb -> vsmall (d_vl (db_write c d wb)) ->
